@@ -12,6 +12,13 @@ pub mod qualified_type;
 mod substitutions;
 pub mod type_scheme;
 
+/// Verification hook (feature `verif-hooks`): the constraint solver and substitutions.
+#[cfg(feature = "verif-hooks")]
+pub mod verif_hooks {
+    pub use super::constraints::{Constraint, ConstraintSet, ConstraintSolverError};
+    pub use super::substitutions::{ApplySubstitution, Substitution, SubstitutionError};
+}
+
 use std::collections::HashMap;
 use std::ops::Deref;
 use std::sync::Arc;
